@@ -203,6 +203,8 @@ def getattr_(o, name):
         try:
             d, _ = class_lookup(o.cls, name)
         except AttributeError:
+            if getattr(o, 'abstract', False):
+                raise E.Unsupported('field %s of a nested %s object used through its class contract' % (name, o.cls.__name__))
             raise_(AttributeError, name)
         return bind_descriptor(d, o, o.cls)
     if isinstance(o, SuperProxy):
@@ -274,7 +276,38 @@ def enum_value_attr(ev, name):
         return MethodRef('enumvalue', name, ev)
     if all(isinstance(v, str) for v in vals):
         return SAbs('enum_str:%s:%s' % (ev.cls.__name__, name), ev.idx, str)
-    raise E.Unsupported('enum params attribute %s is heterogeneous' % name)
+    non_none = [v for v in vals if v is not None]
+    if non_none and all(isinstance(v, enum.Enum) and type(v) is type(non_none[0]) for v in non_none):
+        cls2 = type(non_none[0])
+        ms2 = list(cls2)
+        P = E.cur()
+        if len(non_none) != len(vals):
+            none_idx = [k for k, v in enumerate(vals) if v is None]
+            if P.branch(z3.Or(*[ev.idx == k for k in none_idx])):
+                return None
+        pos = {m2: k for k, m2 in enumerate(ms2)}
+        e = z3.IntVal(0)
+        for k in range(len(vals) - 1, -1, -1):
+            if vals[k] is not None:
+                e = z3.If(ev.idx == k, z3.IntVal(pos[cls2(vals[k].value)] if vals[k] not in pos else pos[vals[k]]), e)
+        e = V.simp(e)
+        return ms2[e.as_long()] if z3.is_int_value(e) else SEnum(cls2, e)
+    # heterogeneous attribute: case split over the groups of members that share one value
+    groups = []
+    for k, v in enumerate(vals):
+        for g in groups:
+            if g[0] is v or (type(g[0]) is type(v) and not callable(v) and g[0] == v):
+                g[1].append(k)
+                break
+        else:
+            groups.append((v, [k]))
+    if len(groups) > 40:
+        raise E.Unsupported('enum params attribute %s has %d distinct values' % (name, len(groups)))
+    P = E.cur()
+    for v, ks in groups[:-1]:
+        if P.branch(z3.Or(*[ev.idx == k for k in ks])):
+            return v
+    return groups[-1][0]
 
 
 def setattr_(o, name, v):
@@ -462,6 +495,8 @@ def seq_elem(seq, i):
     t = seq.at(i)
     if seq.elem == 'int':
         return ops.wrap_int(t)
+    if seq.elem == 'byte1':
+        return V.seq_of_terms([t], 'bytes')
     if isinstance(seq.elem, tuple) and seq.elem[0] == 'enum':
         ts = V.simp(t)
         if z3.is_int_value(ts):
@@ -652,6 +687,10 @@ def call(f, args, kw):
     if deep_concrete(args) and deep_concrete(kw):
         return native(f, args, kw)
     bself = getattr(f, '__self__', None)
+    if isinstance(bself, (bytes, bytearray)) and ('seq', getattr(f, '__name__', '')) in METHOD_MODELS:
+        return METHOD_MODELS[('seq', f.__name__)](ops.as_seq(bself), *args, **kw)
+    if isinstance(bself, str) and ('str', getattr(f, '__name__', '')) in METHOD_MODELS:
+        return METHOD_MODELS[('str', f.__name__)](SStr(V.conc_seq(bself.encode('utf-8')), 'ascii' if bself.isascii() else 'utf-8'), *args, **kw)
     if bself is not None and isinstance(bself, (list, dict, set)) and getattr(f, '__name__', '') in SAFE_CONTAINER_METHODS:
         return native(f, args, kw)
     raise E.Unsupported('call of %r with symbolic arguments' % (getattr(f, '__qualname__', None) or f,))
@@ -661,7 +700,13 @@ SAFE_CONTAINER_METHODS = {'append', 'insert', 'extend', 'items', 'keys', 'values
                           'clear', 'setdefault', 'add'}
 
 
+ABSTRACT_COMPOSE = None     # set by contracts.nested: compose() of an object known only through its class contract
+
+
 def call_function(fn, args, kw):
+    if ABSTRACT_COMPOSE is not None and fn.__name__ == 'compose' and args and isinstance(args[0], SObj) \
+            and getattr(args[0], 'abstract', False):
+        return ABSTRACT_COMPOSE(args[0])
     if is_attrs_generated(fn) and fn.__name__ == '__init__' and args and isinstance(args[0], SObj):
         for k in type.mro(args[0].cls):
             if k.__dict__.get('__init__') is fn:
